@@ -1,8 +1,7 @@
 (* Proofs about Model.Tokenize (tokenize.py): the state invariant of _tokenize, the shape of the tokens it returns, and
-   totality: on a text without the two SMARTS-only characters ';' and '!' every failure of _tokenize / _atom_parse /
-   smiles_tokenize is a ValueError-class exception (IncorrectSmiles, IncorrectSmarts, ValueError) and a non-empty text
-   never gives an empty token list.  (With ';' or '!' the CURRENT code can raise IndexError / TypeError / KeyError:
-   see ReaderProofs.reader_total_refuted.) *)
+   totality: for EVERY text, every failure of _tokenize / _atom_parse / smiles_tokenize is a ValueError-class exception
+   (IncorrectSmiles, IncorrectSmarts, ValueError), never IndexError / KeyError / TypeError, and a non-empty text never
+   gives an empty token list. *)
 From Coq Require Import ZArith List String Ascii Bool Lia.
 From Model Require Import PyBase Tokenize.
 From Gen Require Import TokenTables.
@@ -23,11 +22,6 @@ Definition vee (e : pyexn) : bool :=
 (* a result that is a value or a ValueError-class exception *)
 Definition total {A} (r : pyres A) : Prop := match r with Ok _ => True | Err e => vee e = true end.
 
-(* characters other than the SMARTS-only ';' and '!' *)
-Definition clean_c (c : ascii) : bool := negb (Ascii.eqb c ";") && negb (Ascii.eqb c "!").
-Definition clean_l (l : list ascii) : bool := forallb clean_c l.
-Definition clean (s : string) : bool := clean_l (list_ascii_of_string s).
-
 (* shape of the tokens _tokenize returns *)
 Definition rawwfb (t : token) : bool :=
   match snd t with
@@ -36,9 +30,11 @@ Definition rawwfb (t : token) : bool :=
   | PBool _ => fst t =? 9
   | PNone => zmem (fst t) [2; 3; 4]
   | PZs _ => fst t =? 10
+  | PQB _ _ => fst t =? 12
   | _ => false
   end.
-(* shape of the tokens smiles_tokenize returns *)
+(* shape of the tokens smiles_tokenize returns: atoms (0 / 8) carry an atom dictionary, bonds (1) and closures (6) an int,
+   direction marks (9) a bool; brackets and dots (2, 3, 4) nothing; no SMARTS tokens (10, 12) *)
 Definition swfb (t : token) : bool :=
   match snd t with
   | PAtom _ => zmem (fst t) [0; 8]
@@ -54,6 +50,14 @@ Proof.
   unfold py_int. destruct l; [intros H; inversion H; reflexivity|].
   destruct (_ && _); intros H; inversion H; reflexivity.
 Qed.
+
+Ltac zcontra :=
+  cbn in *;
+  repeat match goal with
+         | H : (_ || _) = true |- _ => apply orb_prop in H; destruct H
+         | H : (_ =? _) = true |- _ => apply Z.eqb_eq in H; subst
+         | H : false = true |- _ => discriminate H
+         end; cbn in *; try discriminate; try lia.
 
 (* ------------------------------------------------------------------------------------------------ table facts *)
 Lemma chr_in_cases c s : chr_in c s = true -> In c (list_ascii_of_string s).
@@ -74,6 +78,15 @@ Proof.
   repeat (destruct H as [<- | H]; [first [left; reflexivity | right; reflexivity]|]). contradiction.
 Qed.
 
+(* QueryBond(tokens.pop(-1)[1], ...) after the check `tokens[-1][0] in (1, 10)`: never a TypeError *)
+Lemma qb_good ty p b : rawwfb (ty, p) = true -> zmem ty [1; 10] = true ->
+  match query_bond p b with Ok q => rawwfb (12, q) = true | Err e => vee e = true end.
+Proof.
+  destruct p; cbn [rawwfb query_bond snd fst]; intros H1 H2; try (exfalso; zcontra; fail).
+  - destruct (valid_order z); reflexivity.
+  - destruct (forallb valid_order l); reflexivity.
+Qed.
+
 (* ------------------------------------------------------------------------------------------------ the invariant *)
 (* the (token_type, token) pairs that occur, with the token list (reversed) *)
 Inductive TI : tstate -> Prop :=
@@ -84,26 +97,34 @@ Inductive TI : tstate -> Prop :=
 | TI_br l toks : W toks -> TI (mkT (Some 5) (PdChars l) toks)
 | TI_pc0 toks : W toks -> TI (mkT (Some 7) (PdChars []) toks)
 | TI_pc1 d toks : W toks -> TI (mkT (Some 7) (PdChars [d]) toks)
-| TI_or l toks : l <> [] -> W toks -> TI (mkT (Some 10) (PdOrders l) toks).
+| TI_or l toks : l <> [] -> W toks -> TI (mkT (Some 10) (PdOrders l) toks)
+| TI_not toks : W toks -> TI (mkT (Some 11) PdNone toks)
+| TI_ring toks : W toks -> TI (mkT (Some 12) PdNone toks)
+| TI_nring toks : W toks -> TI (mkT (Some 12) PdTrue toks).
 
 (* "the loop has consumed something that will show in the result (or make the end fail)" *)
 Definition neb (st : tstate) : bool :=
-  tt_is st 5 || tt_is st 7 || truthy (t_pend st) || match t_toks st with [] => false | _ => true end.
+  tt_is st 5 || tt_is st 7 || tt_is st 11 || tt_is st 12 || truthy (t_pend st) || match t_toks st with [] => false | _ => true end.
 
 Definition Good (r : pyres tstate) : Prop :=
   match r with Ok st' => TI st' /\ neb st' = true | Err e => vee e = true end.
 
 Ltac wsolve :=
-  unfold W in *; cbn;
-  repeat match goal with H : forallb rawwfb _ = true |- _ => rewrite H end; reflexivity.
-Ltac insolve := cbn; repeat (first [left; reflexivity | right]).
+  unfold W in *; cbn in *;
+  repeat match goal with
+         | H : _ && _ = true |- _ => apply andb_prop in H; destruct H
+         end;
+  repeat match goal with H : forallb rawwfb _ = true |- _ => rewrite H end;
+  repeat match goal with H : rawwfb _ = true |- _ => rewrite H end; reflexivity.
+Ltac insolve := cbn; solve [repeat (first [left; reflexivity | right])].
 Ltac tisolve :=
   first [ apply TI_none; wsolve
         | apply TI_bond; wsolve
         | apply TI_plain; [insolve | wsolve]
         | apply TI_cb; [first [left; reflexivity | right; reflexivity] | wsolve]
         | apply TI_br; wsolve | apply TI_pc0; wsolve | apply TI_pc1; wsolve
-        | apply TI_or; [first [discriminate | intros HH; apply app_eq_nil in HH; destruct HH; discriminate] | wsolve] ].
+        | apply TI_or; [first [discriminate | intros HH; apply app_eq_nil in HH; destruct HH; discriminate] | wsolve]
+        | apply TI_not; wsolve | apply TI_ring; wsolve | apply TI_nring; wsolve ].
 Ltac leaf :=
   lazymatch goal with
   | |- Good (Ok _) => split; [tisolve | cbn; reflexivity]
@@ -113,6 +134,12 @@ Ltac go :=
   repeat lazymatch goal with
   | |- Good (if true then ?x else _) => change (Good x)
   | |- Good (if false then _ else ?y) => change (Good y)
+  | |- Good (if negb (zmem ?a ?l) then _ else _) =>
+      tryif is_var a then (let E := fresh "E" in destruct (zmem a l) eqn:E; cbn [negb])
+      else (let v := eval vm_compute in (zmem a l) in change (zmem a l) with v; cbn [negb])
+  | |- Good (if zmem ?a ?l then _ else _) =>
+      tryif is_var a then (let E := fresh "E" in destruct (zmem a l) eqn:E)
+      else (let v := eval vm_compute in (zmem a l) in change (zmem a l) with v)
   | |- Good (if ?b then _ else _) => let E := fresh "E" in destruct b eqn:E
   | |- Good (match py_int ?l with Ok _ => _ | Err _ => _ end) =>
       let E := fresh "E" in destruct (py_int l) eqn:E; [| apply py_int_err in E; subst]
@@ -121,31 +148,194 @@ Ltac go :=
       | H : chr_in c bond_chars = true |- _ =>
           let o := fresh "o" in let Ho := fresh "Ho" in destruct (bond_chars_replace c H) as [o Ho]; rewrite Ho
       end
+  | |- Good (match sget not_dict ?k with Some _ => _ | None => _ end) => destruct (sget not_dict k)
   end.
+Ltac cbfix :=
+  try (match goal with H : chr_in _ cb_chars = true |- _ => apply cb_chars_spec in H; destruct H; subst; leaf end).
+Ltac run := unfold tok_step, ISm, ISa; cbn -[is_digit chr_in Ascii.eqb py_int sget zmem query_bond]; go; try leaf; cbfix.
 
-Lemma clean_c_spec c : clean_c c = true -> Ascii.eqb c ";" = false /\ Ascii.eqb c "!" = false.
+(* the '@' that finishes a ring-bond mark *)
+Lemma ring_finish toks pd c :
+  W toks -> pd = PdNone \/ pd = PdTrue -> Good (tok_step (mkT (Some 12) pd toks) c).
 Proof.
-  unfold clean_c. intros H. apply andb_prop in H. destruct H as [H1 H2].
-  apply negb_true_iff in H1. apply negb_true_iff in H2. split; assumption.
+  intros HW Hpd. destruct Hpd; subst pd; run.
+  all: destruct toks as [|[ty p] r]; go; try leaf.
+  all: unfold W in HW; cbn [forallb] in HW; apply andb_prop in HW; destruct HW as [H1 H2];
+       match goal with
+       | E : zmem ?ty [1; 10] = true, H1 : rawwfb (?ty, ?p) = true |- Good (match query_bond ?p ?b with _ => _ end) =>
+         pose proof (qb_good ty p b H1 E) as Q; destruct (query_bond p b) as [q|e]
+       end;
+       [split; [apply TI_none; unfold W; cbn [forallb]; rewrite Q, H2; reflexivity | reflexivity] | exact Q].
 Qed.
 
-Lemma tok_step_good st c : clean_c c = true -> TI st -> Good (tok_step st c).
+Lemma tok_step_good st c : TI st -> Good (tok_step st c).
 Proof.
-  intros Hc HTI. apply clean_c_spec in Hc. destruct Hc as [Hs Hb].
-  destruct HTI as [toks HW | o toks HW | k toks Hk HW | s toks Hsx HW | l toks HW | toks HW | d toks HW | l toks Hl HW].
-  - unfold tok_step, ISm, ISa; cbn -[is_numeric chr_in Ascii.eqb py_int sget]; rewrite ?Hs, ?Hb; go; try leaf.
-    all: try (match goal with H : chr_in _ cb_chars = true |- _ => apply cb_chars_spec in H; destruct H; subst; leaf end).
-  - unfold tok_step, ISm, ISa; cbn -[is_numeric chr_in Ascii.eqb py_int sget]; rewrite ?Hs, ?Hb; go; try leaf.
-    all: try (match goal with H : chr_in _ cb_chars = true |- _ => apply cb_chars_spec in H; destruct H; subst; leaf end).
-  - cbn in Hk. repeat (destruct Hk as [<- | Hk]); try contradiction;
-      unfold tok_step, ISm, ISa; cbn -[is_numeric chr_in Ascii.eqb py_int sget]; rewrite ?Hs, ?Hb; go; try leaf;
-      try (match goal with H : chr_in _ cb_chars = true |- _ => apply cb_chars_spec in H; destruct H; subst; leaf end).
-  - destruct Hsx; subst s;
-      unfold tok_step, ISm, ISa; cbn -[is_numeric chr_in Ascii.eqb py_int sget]; rewrite ?Hs, ?Hb; go; try leaf;
-      try (match goal with H : chr_in _ cb_chars = true |- _ => apply cb_chars_spec in H; destruct H; subst; leaf end).
-  - unfold tok_step, ISm, ISa; cbn -[is_numeric chr_in Ascii.eqb py_int sget]; rewrite ?Hs, ?Hb; go; try leaf.
-    all: destruct l; go; try leaf.
-  - unfold tok_step, ISm, ISa; cbn -[is_numeric chr_in Ascii.eqb py_int sget]; rewrite ?Hs, ?Hb; go; try leaf.
-  - unfold tok_step, ISm, ISa; cbn -[is_numeric chr_in Ascii.eqb py_int sget]; rewrite ?Hs, ?Hb; go; try leaf.
-  - unfold tok_step, ISm, ISa; cbn -[is_numeric chr_in Ascii.eqb py_int sget]; rewrite ?Hs, ?Hb; go; try leaf.
+  intros HTI.
+  destruct HTI as [toks HW | o toks HW | k toks Hk HW | s toks Hsx HW | l toks HW | toks HW | d toks HW | l toks Hl HW
+                  | toks HW | toks HW | toks HW].
+  - run.
+  - run.
+  - cbn in Hk. repeat (destruct Hk as [<- | Hk]); try contradiction; run.
+  - destruct Hsx; subst s; run.
+  - run. all: destruct l; go; try leaf.
+  - run.
+  - run.
+  - run.
+  - run.
+  - apply ring_finish; [exact HW | left; reflexivity].
+  - apply ring_finish; [exact HW | right; reflexivity].
 Qed.
+
+(* ------------------------------------------------------------------------------------------------ the loop and the end *)
+Lemma tok_loop_good l : forall st, TI st -> (l <> [] \/ neb st = true) ->
+  match tok_loop tok_step st l with Ok st' => TI st' /\ neb st' = true | Err e => vee e = true end.
+Proof.
+  induction l as [|c r IH]; intros st HT HN; cbn [tok_loop].
+  - split; [exact HT|]. destruct HN as [HN|HN]; [contradiction|exact HN].
+  - pose proof (tok_step_good st c HT) as G. destruct (tok_step st c) as [st'|e]; [|exact G].
+    destruct G as [G1 G2]. apply IH; [exact G1 | right; exact G2].
+Qed.
+
+Lemma forallb_rev {A} (f : A -> bool) l : forallb f l = true -> forallb f (rev l) = true.
+Proof.
+  intros H. rewrite forallb_forall in *. intros x Hx. apply H. apply in_rev. exact Hx.
+Qed.
+
+Definition nonnil {A} (l : list A) : Prop := l <> [].
+
+Lemma rev_nonnil {A} (x : A) l : rev (x :: l) <> [].
+Proof. cbn. intros H. apply app_eq_nil in H. destruct H; discriminate. Qed.
+
+Lemma tok_finish_good st : TI st -> neb st = true ->
+  match tok_finish st with Ok l => forallb rawwfb l = true /\ l <> [] | Err e => vee e = true end.
+Proof.
+  intros HT HN.
+  destruct HT as [toks HW | o toks HW | k toks Hk HW | s toks Hsx HW | l toks HW | toks HW | d toks HW | l toks Hl HW
+                  | toks HW | toks HW | toks HW]; unfold tok_finish, ISm, ISa.
+  - cbn in *. destruct toks; [discriminate|]. split; [apply (forallb_rev rawwfb (t :: toks)); exact HW | apply rev_nonnil].
+  - cbn -[rev]. split; [apply (forallb_rev rawwfb ((1, PInt o) :: toks)); unfold W in HW; cbn; rewrite HW; reflexivity | apply rev_nonnil].
+  - cbn in Hk. repeat (destruct Hk as [<- | Hk]); try contradiction; cbn -[rev] in *;
+      (destruct toks; [discriminate|]; split; [apply (forallb_rev rawwfb (t :: toks)); exact HW | apply rev_nonnil]).
+  - destruct Hsx; subst s; cbn -[rev];
+      (split; [apply (forallb_rev rawwfb (_ :: toks)); unfold W in HW; cbn; rewrite HW; reflexivity | apply rev_nonnil]).
+  - reflexivity.
+  - reflexivity.
+  - cbn -[rev py_int]. destruct (py_int [d]) eqn:E; [|apply py_int_err in E; subst; reflexivity].
+    split; [apply (forallb_rev rawwfb (_ :: toks)); unfold W in HW; cbn; rewrite HW; reflexivity | apply rev_nonnil].
+  - cbn -[rev]. destruct l as [|x l]; [contradiction|]. cbn -[rev].
+    split; [apply (forallb_rev rawwfb (_ :: toks)); unfold W in HW; cbn; rewrite HW; reflexivity | apply rev_nonnil].
+  - reflexivity.
+  - reflexivity.
+  - reflexivity.
+Qed.
+
+Lemma TI_init : TI t_init.
+Proof. apply TI_none. reflexivity. Qed.
+
+(* _tokenize: total; the tokens have the documented shapes; a non-empty text gives at least one token *)
+Theorem tokenize_raw_good s :
+  match tokenize_raw s with
+  | Ok l => forallb rawwfb l = true /\ (s <> ""%string -> l <> [])
+  | Err e => vee e = true
+  end.
+Proof.
+  unfold tokenize_raw, tokenize_raw_with.
+  destruct s as [|c s'].
+  - cbn. split; [reflexivity | intros H; contradiction].
+  - pose proof (tok_loop_good (list_ascii_of_string (String c s')) t_init TI_init) as G.
+    assert (HN : list_ascii_of_string (String c s') <> [] \/ neb t_init = true) by (left; cbn; discriminate).
+    specialize (G HN). destruct (tok_loop tok_step t_init _) as [st|e]; [|exact G].
+    destruct G as [G1 G2]. pose proof (tok_finish_good st G1 G2) as F.
+    destruct (tok_finish st) as [l|e]; [|exact F]. destruct F as [F1 F2]. split; [exact F1 | intros _; exact F2].
+Qed.
+
+(* ------------------------------------------------------------------------------------------------ _atom_parse, smiles_tokenize *)
+Lemma opt_bind_res_err {A B} (o : option A) (f : A -> pyres B) e :
+  (forall a e', f a = Err e' -> vee e' = true) -> opt_bind_res o f = Err e -> vee e = true.
+Proof.
+  intros Hf. destruct o as [a|]; cbn; [|discriminate].
+  destruct (f a) eqn:E; [discriminate|]. intros H. inversion H; subst. exact (Hf a e E).
+Qed.
+
+Lemma py_int_vee a e : py_int a = Err e -> vee e = true.
+Proof. intros H. apply py_int_err in H. subst. reflexivity. Qed.
+
+Lemma atom_parse_good s :
+  match atom_parse s with Ok t => swfb t = true | Err e => vee e = true end.
+Proof.
+  unfold atom_parse, ISm.
+  destruct (atom_re_match _) as [g|]; [|reflexivity].
+  destruct (opt_bind_res (g_iso g) py_int) as [iso|e] eqn:E1.
+  2:{ apply (opt_bind_res_err _ _ _ py_int_vee E1). }
+  assert (HH : forall (r : pyres Z) (k : Z -> pyres token),
+             (forall e, r = Err e -> vee e = true) ->
+             (forall v, match k v with Ok t => swfb t = true | Err e => vee e = true end) ->
+             match (match r with Err e => Err e | Ok v => k v end) with Ok t => swfb t = true | Err e => vee e = true end).
+  { intros r k H1 H2. destruct r as [v|e]; [apply H2 | apply H1; reflexivity]. }
+  apply HH.
+  { intros e. destruct (g_h g) as [[|a [|b t]]|]; try discriminate.
+    intros H. apply py_int_err in H. subst. reflexivity. }
+  intros hyd. apply HH.
+  { intros e. destruct (g_chg g) as [c|]; [|discriminate]. destruct (sget charge_dict _); [discriminate|].
+    intros H. inversion H. reflexivity. }
+  intros chg.
+  destruct (opt_bind_res (g_map g) _) as [mp|e] eqn:E2.
+  2:{ refine (opt_bind_res_err _ _ _ _ E2). intros a e'. unfold ISm. destruct (py_int (tl a)); [discriminate|].
+      intros H. inversion H. reflexivity. }
+  destruct (smem _ aromatic_elements); reflexivity.
+Qed.
+
+Lemma post_tokens_good l : forallb rawwfb l = true ->
+  match post_tokens l with Ok l' => forallb swfb l' = true /\ List.length l' = List.length l | Err e => vee e = true end.
+Proof.
+  induction l as [|[ty p] r IH]; intros HW.
+  - cbn. split; reflexivity.
+  - cbn [forallb] in HW. apply andb_prop in HW. destruct HW as [H1 H2]. specialize (IH H2).
+    cbn [post_tokens].
+    assert (K : forall t, swfb t = true ->
+                match (match post_tokens r with Ok r' => Ok (t :: r') | Err e => Err e end) with
+                | Ok l' => forallb swfb l' = true /\ List.length l' = S (List.length r) | Err e => vee e = true end).
+    { intros t Ht. destruct (post_tokens r) as [r'|e]; [|exact IH]. destruct IH as [I1 I2].
+      split; [cbn; rewrite Ht, I1; reflexivity | cbn; rewrite I2; reflexivity]. }
+    cbn [List.length].
+    destruct p; cbn [rawwfb snd fst] in H1.
+    + (* PNone *) assert (E1 : zmem ty [0; 8] = false) by (destruct (zmem ty [0; 8]) eqn:E; [exfalso; zcontra | reflexivity]).
+      assert (E2 : (ty =? 5) = false) by (destruct (ty =? 5) eqn:E; [exfalso; zcontra | reflexivity]).
+      assert (E3 : zmem ty [10; 12] = false) by (destruct (zmem ty [10; 12]) eqn:E; [exfalso; zcontra | reflexivity]).
+      rewrite E1, E2, E3. apply K. exact H1.
+    + (* PStr *) destruct (zmem ty [0; 8]) eqn:E1.
+      * apply K. cbn. exact E1.
+      * assert (E2 : (ty =? 5) = true) by (destruct (ty =? 5) eqn:E; [reflexivity | exfalso; zcontra]).
+        rewrite E2. pose proof (atom_parse_good s) as A. destruct (atom_parse s) as [t|e]; [apply K; exact A | exact A].
+    + (* PInt *) assert (E1 : zmem ty [0; 8] = false) by (destruct (zmem ty [0; 8]) eqn:E; [exfalso; zcontra | reflexivity]).
+      assert (E2 : (ty =? 5) = false) by (destruct (ty =? 5) eqn:E; [exfalso; zcontra | reflexivity]).
+      assert (E3 : zmem ty [10; 12] = false) by (destruct (zmem ty [10; 12]) eqn:E; [exfalso; zcontra | reflexivity]).
+      rewrite E1, E2, E3. apply K. exact H1.
+    + (* PBool *) assert (E1 : zmem ty [0; 8] = false) by (destruct (zmem ty [0; 8]) eqn:E; [exfalso; zcontra | reflexivity]).
+      assert (E2 : (ty =? 5) = false) by (destruct (ty =? 5) eqn:E; [exfalso; zcontra | reflexivity]).
+      assert (E3 : zmem ty [10; 12] = false) by (destruct (zmem ty [10; 12]) eqn:E; [exfalso; zcontra | reflexivity]).
+      rewrite E1, E2, E3. apply K. exact H1.
+    + (* PZs *) apply Z.eqb_eq in H1. subst ty. reflexivity.
+    + (* PQB *) apply Z.eqb_eq in H1. subst ty. reflexivity.
+    + discriminate.
+    + discriminate.
+Qed.
+
+(* smiles_tokenize: total, tokens of the shapes the parser expects, never [] for a non-empty text *)
+Theorem tokenize_good s :
+  match tokenize s with
+  | Ok l => forallb swfb l = true /\ (s <> ""%string -> l <> [])
+  | Err e => vee e = true
+  end.
+Proof.
+  unfold tokenize, tokenize_with. fold tokenize_raw.
+  pose proof (tokenize_raw_good s) as R. destruct (tokenize_raw s) as [l|e]; [|exact R].
+  destruct R as [R1 R2]. pose proof (post_tokens_good l R1) as P.
+  destruct (post_tokens l) as [l'|e]; [|exact P]. destruct P as [P1 P2]. split; [exact P1|].
+  intros Hs. specialize (R2 Hs). destruct l'; [|discriminate]. destruct l; [contradiction | discriminate].
+Qed.
+
+(* non-vacuity: a text using every token kind is accepted *)
+Example tokenize_example :
+  exists l, tokenize "[13CH3:7]C(=O)/C=C\c1ccc%10.Cl%10" = Ok l /\ List.length l = 20%nat.
+Proof. eexists. split; vm_compute; reflexivity. Qed.
